@@ -157,6 +157,12 @@ pub mod topics {
         pub fn get_topic(&self, name: &TopicName) -> (r: Result<Arc<Topic>, GetTopicError>)
             ensures r == self.lookup(*name)
         { unimplemented!() }
+        /// outcome of `create_topic(name)` (State::create_topic is under contract in bundle B4: Ok exactly when absent)
+        pub uninterp spec fn created(&self, name: TopicName) -> Result<Arc<Topic>, CreateTopicError>;
+        #[verifier::external_body]
+        pub fn create_topic(&self, name: TopicName) -> (r: Result<Arc<Topic>, CreateTopicError>)
+            ensures r == self.created(name)
+        { unimplemented!() }
     }
 }
 
@@ -385,7 +391,26 @@ pub mod publisher {
             ensures (match parsed_topic(raw_value@) { Some(n) => r == Ok::<TopicName, Status>(n), None => err_code(r) == Some(Code::InvalidArgument) })
         { unimplemented!() }
     }
+    /// field-exact mirror of the prost `Topic` resource
+    pub struct Topic {
+        pub name: String,
+        pub labels: HashMap<String, String>,
+        pub message_storage_policy: Option<u8>,
+        pub kms_key_name: String,
+        pub schema_settings: Option<u8>,
+        pub satisfies_pzs: bool,
+        pub message_retention_duration: Option<pubsub_proto::ProtoDuration>,
+    }
     impl PublisherService {
+//@fn src/api/publisher.rs PublisherService::create_topic tags=C10 keep-paths=1
+//@ ret r
+//@ # C17: a name that does not parse is INVALID_ARGUMENT; C10: an existing name is ALREADY_EXISTS; OK echoes the canonical name
+//@ ensures[C17] parsed_topic(request.m.name@).is_none() ==> err_code(r) == Some(Code::InvalidArgument)
+//@ ensures[C10] (match parsed_topic(request.m.name@) { Some(n) => (self.topic_manager.created(n) matches Err(CreateTopicError::AlreadyExists)) ==> err_code(r) == Some(Code::AlreadyExists), None => true })
+//@ ensures[C10] (match r { Ok(resp) => parsed_topic(request.m.name@).is_some() && self.topic_manager.created(parsed_topic(request.m.name@).unwrap()).is_ok() && resp.m.name@ == display_topic(parsed_topic(request.m.name@).unwrap()), Err(_) => true })
+//@ closure 1 ret st: Status
+//@ closure 1 ensures (match $1 { CreateTopicError::AlreadyExists => st.code == Code::AlreadyExists, CreateTopicError::Closed => st.code == Code::FailedPrecondition })
+//@end
 //@fn src/api/publisher.rs PublisherService::delete_topic tags=C10 keep-paths=1
 //@ ret r
 //@ # C17 / C10: a name that does not parse is INVALID_ARGUMENT, an absent topic NOT_FOUND
